@@ -39,7 +39,65 @@ fn frames(bg: u8) -> Vec<Frame> {
     b[17] = 0xDD;
     b[18] = 0x60 | (b[18] & 0x0F);
     b[18 + 6] = 17;
-    vec![
+    // frames whose last header announces no known layer, or one that is cut short: only the selector
+    // field of that header is assigned on them (extra_frames_from)
+    let mk = |len: usize, f: &dyn Fn(&mut Vec<u8>)| -> Vec<u8> {
+        let mut v: Vec<u8> = (0..len).map(byte).collect();
+        f(&mut v);
+        v
+    };
+    let set_type = |v: &mut Vec<u8>, at: usize, t: u16| {
+        v[at] = (t >> 8) as u8;
+        v[at + 1] = t as u8;
+    };
+    let ip4 = |v: &mut Vec<u8>, proto: u8| {
+        set_type(v, 12, 0x0800);
+        v[14] = 0x45;
+        v[14 + 9] = proto;
+    };
+    let ip6 = |v: &mut Vec<u8>, at: usize, nh: u8| {
+        v[at] = 0x60 | (v[at] & 0x0F);
+        v[at + 6] = nh;
+    };
+    let extra = vec![
+        Frame { name: "eth/ipv4/icmp (protocol 1: no known layer)", bytes: mk(14 + 20 + 16, &|v| ip4(v, 1)), layers: vec![("eth", 0, vec![P::Eth]), ("ipv4", 14, vec![P::Eth, P::Ipv4])] },
+        Frame { name: "eth/arp (type 0x0806: no known layer)", bytes: mk(14 + 28, &|v| set_type(v, 12, 0x0806)), layers: vec![("eth", 0, vec![P::Eth])] },
+        Frame {
+            name: "eth/vlan/type 0x88b5 (no known layer)",
+            bytes: mk(14 + 4 + 30, &|v| {
+                set_type(v, 12, 0x8100);
+                set_type(v, 16, 0x88B5)
+            }),
+            layers: vec![("eth", 0, vec![P::Eth]), ("vlan", 14, vec![P::Eth, P::Vlan])],
+        },
+        Frame {
+            name: "eth/ipv6/icmpv6 (next header 58: no known layer)",
+            bytes: mk(14 + 40 + 16, &|v| {
+                set_type(v, 12, 0x86DD);
+                ip6(v, 14, 58)
+            }),
+            layers: vec![("eth", 0, vec![P::Eth]), ("ipv6", 14, vec![P::Eth, P::Ipv6])],
+        },
+        Frame { name: "eth/15 bytes of an ipv4 header", bytes: mk(14 + 15, &|v| set_type(v, 12, 0x0800)), layers: vec![("eth", 0, vec![P::Eth])] },
+        Frame { name: "eth/ipv4/10 bytes of a tcp header", bytes: mk(14 + 20 + 10, &|v| ip4(v, 6)), layers: vec![("eth", 0, vec![P::Eth]), ("ipv4", 14, vec![P::Eth, P::Ipv4])] },
+        Frame {
+            name: "eth/ipv6/4 bytes of a udp header",
+            bytes: mk(14 + 40 + 4, &|v| {
+                set_type(v, 12, 0x86DD);
+                ip6(v, 14, 17)
+            }),
+            layers: vec![("eth", 0, vec![P::Eth]), ("ipv6", 14, vec![P::Eth, P::Ipv6])],
+        },
+        Frame {
+            name: "eth/vlan/10 bytes of an ipv6 header",
+            bytes: mk(14 + 4 + 10, &|v| {
+                set_type(v, 12, 0x8100);
+                set_type(v, 16, 0x86DD)
+            }),
+            layers: vec![("eth", 0, vec![P::Eth]), ("vlan", 14, vec![P::Eth, P::Vlan])],
+        },
+    ];
+    let mut all = vec![
         Frame {
             name: "eth/ipv4+options/tcp+options",
             bytes: a,
@@ -55,7 +113,14 @@ fn frames(bg: u8) -> Vec<Frame> {
                 ("udp", 58, vec![P::Eth, P::Vlan, P::Ipv6, P::Udp]),
             ],
         },
-    ]
+    ];
+    all.extend(extra);
+    all
+}
+/// frames from this index on only have the selector field of their last header assigned
+const EXTRA_FRAMES_FROM: usize = 2;
+fn is_selector(f: &Field) -> bool {
+    matches!(f.name, "type" | "proto" | "nextheader")
 }
 
 fn value_object(kind: FKind, v: u128) -> Rc<Object> {
@@ -83,6 +148,9 @@ fn in_range_values(f: &Field, tier: Tier) -> Vec<u128> {
         v.push(1u128 << b);
         v.push(all ^ (1u128 << b));
     }
+    if f.width == 16 {
+        v.extend([0x8100, 0x0800, 0x86DD, 0x0806]); // the dispatch values of a type field
+    }
     v.sort();
     v.dedup();
     v
@@ -106,12 +174,21 @@ fn read_all(vm: &crate::vm::interpreter::VM, pkt: &Rc<crate::builtins::pcap::Pca
             out.push((format!("{}.{}", layer, f.name), observed_text(f.kind, &got)));
         }
     }
-    // the layer names the frame does NOT use, read at every level: such a read must never disturb the
-    // materialised chain (its result is not compared: it is null, or an error where the name does not exist)
-    for (_, _, path) in &fr.layers {
+    // every layer name read at every level: what is there (which kind of layer, null, which error object, or
+    // a runtime error where the name does not exist) is part of what "reads as before" covers, and such a
+    // read must never disturb the materialised chain
+    for (layer, _, path) in &fr.layers {
         for other in [P::Vlan, P::Ipv4, P::Ipv6, P::Udp, P::Tcp] {
             if let Ok(lo) = walk(vm, pkt, path) {
-                let _ = vm.exec_prop_expr(lo, other as u8, None, 1);
+                let what = match vm.exec_prop_expr(lo, other as u8, None, 1) {
+                    Ok(o) => match o.as_ref() {
+                        Object::Null => "null".to_string(),
+                        Object::Err(_) => format!("error object {}", o),
+                        _ => layer_of(&o).to_string(),
+                    },
+                    Err(_) => "no such property".to_string(),
+                };
+                out.push((format!("{}.<{:?}>", layer, other), what));
             }
         }
     }
@@ -159,12 +236,15 @@ impl P17 {
             for (fi, fr) in frames(bg).iter().enumerate() {
                 for (li, (layer, _, _)) in fr.layers.iter().enumerate() {
                     for (k, f) in FIELDS.iter().enumerate() {
+                        if fi >= EXTRA_FRAMES_FROM && !(bg == 1 && li + 1 == fr.layers.len() && is_selector(f)) {
+                            continue;
+                        }
                         if f.layer == *layer && f.writable {
                             let nch = if in_range_values(f, tier).len() > 4096 { 16 } else { 1 };
                             for ch in 0..nch {
                                 cases.push(Case::Single(bg, fi, li, k, ch, nch));
                             }
-                            if bg == 1 {
+                            if bg == 1 && fi < EXTRA_FRAMES_FROM {
                                 cases.push(Case::Invalid(fi, li, k));
                             }
                         }
@@ -374,6 +454,25 @@ impl Property for P17 {
                             n += 1;
                         }
                     }
+                    // the packet's own layer property takes an Ethernet layer object and nothing else
+                    let donor = load_frames(&dir, "don", &[frames(1)[0].bytes.clone()]).remove(0);
+                    let donor_ip = walk(&vm, &donor, &[P::Eth, P::Ipv4])?;
+                    let mut wrong: Vec<Rc<Object>> = [V::Int(5), V::Null, V::Str("abc".into()), V::Bool(true), V::Float(1.5), V::Byte(1)].iter().map(to_object).collect();
+                    wrong.push(donor_ip);
+                    wrong.push(Rc::new(Object::Packet(donor.clone())));
+                    for val in wrong {
+                        let pkt = load_frames(&dir, "rec", &[fr.bytes.clone()]).remove(0);
+                        let before_props = read_all(&vm, &pkt, fr)?;
+                        let before = serialize(&pkt);
+                        let res = vm.exec_prop_expr(Rc::new(Object::Packet(pkt.clone())), P::Eth as u8, Some(val.clone()), 1);
+                        if res.is_ok() {
+                            return Err(format!("packet.eth = {} (invalid): a value that is no Ethernet layer was accepted", layer_of(&val)));
+                        }
+                        if serialize(&pkt) != before || read_all(&vm, &pkt, fr)? != before_props {
+                            return Err(format!("packet.eth = {} (invalid): a runtime error was raised but the packet changed", layer_of(&val)));
+                        }
+                        n += 1;
+                    }
                     Ok(("record fields".into(), n, n))
                 }
                 Case::History(fi, a0) => {
@@ -435,7 +534,7 @@ impl Property for P17 {
         }
     }
     fn rule(&self) -> String {
-        "single assignments: every writable header property (Ethernet, VLAN, IPv4, IPv6, UDP, TCP) x every in-range value for fields of <= 12 bits (thorough <= 16), boundary and walking-bit values otherwise (addresses as text) x 3 backgrounds x the frame containing the layer (Ethernet/IPv4 with options/TCP with options; Ethernet/VLAN/IPv6/UDP); after each assignment: (1) immediate read-back, (2) serialise, re-parse through a real pcap file, read back, (3) every other readable property of every layer and of the record reads as before, (4) the serialised bytes differ from the original only inside the field's bit range of the layout table and hold the value; invalid values (-1, max+1, max+2, 2^16, 2^32, i64 limits, every other value kind): runtime error with bytes and all reads unchanged, or exactly the value modulo 2^w; record fields sec/usec/caplen/wirelen; histories: breadth-first search over sequences of <= 2 (thorough 3) assignments (every writable property x 2 values) with a read-everything step in between, canonical state = model bytes, each history replayed on a fresh packet".into()
+        "single assignments: every writable header property (Ethernet, VLAN, IPv4, IPv6, UDP, TCP) x every in-range value for fields of <= 12 bits (thorough <= 16), boundary and walking-bit values otherwise (addresses as text) x 3 backgrounds x the frame containing the layer (Ethernet/IPv4 with options/TCP with options; Ethernet/VLAN/IPv6/UDP); after each assignment: (1) immediate read-back, (2) serialise, re-parse through a real pcap file, read back, (3) every other readable property of every layer and of the record reads as before, (4) the serialised bytes differ from the original only inside the field's bit range of the layout table and hold the value; invalid values (-1, max+1, max+2, 2^16, 2^32, i64 limits, every other value kind): runtime error with bytes and all reads unchanged, or exactly the value modulo 2^w; record fields sec/usec/caplen/wirelen, and packet.eth = 8 values that are no Ethernet layer (runtime error, packet unchanged); the selector field (type, proto, nextheader) of the last header of 8 more frames whose header announces no known layer (ICMP, ARP, an unknown EtherType behind a VLAN tag, ICMPv6) or a layer that is cut short (IPv4, TCP, UDP, IPv6): every in-range value incl. all dispatch values, the same four checks, where (3) covers what every layer name reads as at every level (kind of layer, null, which error object); histories: breadth-first search over sequences of <= 2 (thorough 3) assignments (every writable property x 2 values) with a read-everything step in between, canonical state = model bytes, each history replayed on a fresh packet".into()
     }
     fn bounds(&self) -> Value {
         json!({"cases": self.cases.len(), "tier": self.tier.name()})
